@@ -31,7 +31,7 @@ ASSUMPTIONS = ["run(until=E) for an E that fails raises E's exception; this is a
                "PYTHONHASHSEED values are sampled, not enumerated"]
 FLOORS = {"quick": {"plans": 2000, "numeric_stops": 2000, "stops_coinciding": 500, "until_event_calls": 1000,
                     "until_event_late_waiter": 50, "step_calls": 1000, "refused_until": 100,
-                    "hashseed_digests_compared": 600, "inprocess_reruns": 2000, "net_digests_compared": 0},
+                    "hashseed_digests_compared": 600, "inprocess_reruns": 2000, "net_digests_compared": 60},
           "thorough": {"plans": 40000, "numeric_stops": 40000, "stops_coinciding": 10000,
                        "until_event_calls": 20000, "until_event_late_waiter": 1000, "step_calls": 20000,
                        "refused_until": 2000, "hashseed_digests_compared": 10000, "inprocess_reruns": 40000,
